@@ -80,7 +80,101 @@ class SwapIf(ast.NodeTransformer):
         return node
 
 
-TRANSFORMS = {'rename': [RenameLocals], 'reformat': [], 'flipcmp': [FlipCompare], 'swapif': [SwapIf], 'all': [RenameLocals, FlipCompare, SwapIf]}
+class AugExpand(ast.NodeTransformer):
+    """x += e  ->  x = x + e   (also -=), for any target"""
+
+    def visit_AugAssign(self, node):
+        self.generic_visit(node)
+        if isinstance(node.op, (ast.Add, ast.Sub)):
+            import copy
+            load = copy.deepcopy(node.target)
+            for n in ast.walk(load):
+                if hasattr(n, 'ctx'):
+                    n.ctx = ast.Load()
+            return ast.copy_location(ast.Assign(targets=[node.target], value=ast.BinOp(left=load, op=node.op, right=node.value)), node)
+        return node
+
+
+def _names(node, ctx_type):
+    return {ast.unparse(n) for n in ast.walk(node) if isinstance(n, (ast.Name, ast.Attribute, ast.Subscript)) and isinstance(getattr(n, 'ctx', None), ctx_type)}
+
+
+class Reorder(ast.NodeTransformer):
+    """swap two adjacent simple assignments that are independent (no calls, disjoint reads/writes)"""
+
+    def _simple(self, st):
+        if not isinstance(st, (ast.Assign, ast.AugAssign)):
+            return False
+        return not any(isinstance(n, (ast.Call, ast.Yield, ast.YieldFrom, ast.NamedExpr, ast.Await)) for n in ast.walk(st))
+
+    def _swap(self, body):
+        out = list(body)
+        i = 0
+        while i + 1 < len(out):
+            a, b = out[i], out[i + 1]
+            if self._simple(a) and self._simple(b):
+                wa, wb = _names(a, ast.Store), _names(b, ast.Store)
+                ra, rb = _names(a, ast.Load), _names(b, ast.Load)
+                roots = lambda s: {x.split('[')[0].split('.')[0] + ('.' + x.split('.')[1].split('[')[0] if x.startswith('self.') else '') for x in s}  # noqa
+                if not (roots(wa) & (roots(rb) | roots(wb))) and not (roots(wb) & roots(ra)):
+                    out[i], out[i + 1] = b, a
+                    i += 2
+                    continue
+            i += 1
+        return out
+
+    def generic_visit(self, node):
+        super().generic_visit(node)
+        for fld in ('body', 'orelse', 'finalbody'):
+            v = getattr(node, fld, None)
+            if isinstance(v, list) and v and isinstance(v[0], ast.stmt):
+                setattr(node, fld, self._swap(v))
+        return node
+
+
+class RetLocal(ast.NodeTransformer):
+    """return <expr>  ->  result_ = <expr>; return result_     (non-trivial expressions, not in generators/lambdas)"""
+
+    def visit_FunctionDef(self, node):
+        self.generic_visit(node)
+        if any(isinstance(n, (ast.Yield, ast.YieldFrom)) for n in ast.walk(node)):
+            return node
+
+        def fix(stmts):
+            out = []
+            for st in stmts:
+                for fld in ('body', 'orelse', 'finalbody'):
+                    v = getattr(st, fld, None)
+                    if isinstance(v, list) and v and isinstance(v[0], ast.stmt) and not isinstance(st, (ast.FunctionDef, ast.ClassDef)):
+                        setattr(st, fld, fix(v))
+                if isinstance(st, ast.Try):
+                    for h in st.handlers:
+                        h.body = fix(h.body)
+                if isinstance(st, ast.Match):
+                    for c in st.cases:
+                        c.body = fix(c.body)
+                if isinstance(st, ast.Return) and st.value is not None and not isinstance(st.value, (ast.Name, ast.Constant)):
+                    out.append(ast.copy_location(ast.Assign(targets=[ast.Name(id='result_', ctx=ast.Store())], value=st.value), st))
+                    out.append(ast.copy_location(ast.Return(value=ast.Name(id='result_', ctx=ast.Load())), st))
+                else:
+                    out.append(st)
+            return out
+        node.body = fix(node.body)
+        return node
+
+
+class DeMorgan(ast.NodeTransformer):
+    """not a and not b -> not (a or b);  not a or not b -> not (a and b)"""
+
+    def visit_BoolOp(self, node):
+        self.generic_visit(node)
+        if len(node.values) >= 2 and all(isinstance(v, ast.UnaryOp) and isinstance(v.op, ast.Not) for v in node.values):
+            inner = ast.BoolOp(op=ast.Or() if isinstance(node.op, ast.And) else ast.And(), values=[v.operand for v in node.values])
+            return ast.copy_location(ast.UnaryOp(op=ast.Not(), operand=inner), node)
+        return node
+
+
+TRANSFORMS = {'rename': [RenameLocals], 'reformat': [], 'flipcmp': [FlipCompare], 'swapif': [SwapIf], 'all': [RenameLocals, FlipCompare, SwapIf], 'augexpand': [AugExpand], 'reorder': [Reorder], 'retlocal': [RetLocal], 'demorgan': [DeMorgan]}
 
 
 
